@@ -26,7 +26,7 @@ func runC08(c *Ctx, r *Report) {
 	r.Doc("R-C08.4", "the hash is not part of the encoded view; it is set from the requested identifier")
 
 	// ---- R-C08.1
-	ioFn := p.Func("io/cbor", "", "IO")
+	ioFn := p.FuncI("io/cbor", "", "IO")
 	type reg struct {
 		t      *types.Named
 		fields map[string]string // field -> serial
@@ -135,11 +135,11 @@ func runC08(c *Ctx, r *Report) {
 	}
 	jp := "io/jsonable"
 	pairs := []pair{
-		{"Entry", p.Func(jp, "", "ToJsonableEntry"), p.Func(jp, "Entry", "ToPlain"), map[string]string{"Hash": "set from the requested identifier by the decoder", "EncryptedLinks": "consumed by DecryptLinks before ToPlain", "EncryptedLinksNonce": "consumed by DecryptLinks before ToPlain"}},
-		{"EntryV0", p.Func(jp, "", "ToJsonableEntry"), p.Func(jp, "EntryV0", "ToPlain"), map[string]string{}},
-		{"LamportClock", p.Func(jp, "", "ToJsonableLamportClock"), p.Func(jp, "LamportClock", "ToPlain"), map[string]string{}},
-		{"Identity", p.Func(jp, "", "ToJsonableIdentity"), p.Func(jp, "Identity", "ToPlain"), map[string]string{}},
-		{"IdentitySignature", p.Func(jp, "", "ToJsonableIdentitySignature"), p.Func(jp, "IdentitySignature", "ToPlain"), map[string]string{}},
+		{"Entry", p.FuncI(jp, "", "ToJsonableEntry"), p.FuncI(jp, "Entry", "ToPlain"), map[string]string{"Hash": "set from the requested identifier by the decoder", "EncryptedLinks": "consumed by DecryptLinks before ToPlain", "EncryptedLinksNonce": "consumed by DecryptLinks before ToPlain"}},
+		{"EntryV0", p.FuncI(jp, "", "ToJsonableEntry"), p.FuncI(jp, "EntryV0", "ToPlain"), map[string]string{}},
+		{"LamportClock", p.FuncI(jp, "", "ToJsonableLamportClock"), p.FuncI(jp, "LamportClock", "ToPlain"), map[string]string{}},
+		{"Identity", p.FuncI(jp, "", "ToJsonableIdentity"), p.FuncI(jp, "Identity", "ToPlain"), map[string]string{}},
+		{"IdentitySignature", p.FuncI(jp, "", "ToJsonableIdentitySignature"), p.FuncI(jp, "IdentitySignature", "ToPlain"), map[string]string{}},
 	}
 	codecOf := func(fn *Fn, e ast.Expr) string {
 		e = ast.Unparen(e)
@@ -278,7 +278,7 @@ func runC08(c *Ctx, r *Report) {
 	}
 	r.Floor("R-C08.2", "writer/reader field pairs", npairs, 12)
 	// every decoded field of the entry reaches a setter of the output entry
-	rdr := p.Func(jp, "Entry", "ToPlain")
+	rdr := p.FuncI(jp, "Entry", "ToPlain")
 	setters := map[string]bool{}
 	walkNoLit(rdr.Body, func(n ast.Node) bool {
 		if call, ok := n.(*ast.CallExpr); ok {
@@ -295,7 +295,7 @@ func runC08(c *Ctx, r *Report) {
 	// ---- R-C08.3
 	var roots []*Fn
 	for _, t := range []struct{ pkg, recv, name string }{{"io/cbor", "IOCbor", "Write"}, {"io/pb", "pb", "Write"}, {jp, "", "ToJsonableEntry"}, {"entry", "", "Normalize"}, {"", "IPFSLog", "ToJSONLog"}, {"", "", "toMultihash"}, {"io/cbor", "", "castCidToBytes"}, {"entry", "", "ToMultihashWithIO"}} {
-		roots = append(roots, p.Func(t.pkg, t.recv, t.name))
+		roots = append(roots, p.FuncI(t.pkg, t.recv, t.name))
 	}
 	enc := c.CG.Reach(roots, false)
 	dec := decodeScope(c)
@@ -336,7 +336,7 @@ func runC08(c *Ctx, r *Report) {
 	}
 	r.Floor("R-C08.3", "marshaller constructions", nm, 2)
 	// ToJSONLog sorts the slice it iterates
-	tj := p.Func("", "IPFSLog", "ToJSONLog")
+	tj := p.FuncI("", "IPFSLog", "ToJSONLog")
 	sortFn := p.FuncObj("entry/sorting", "", "Sort")
 	var sorted types.Object
 	var sortPos token.Pos
@@ -360,7 +360,7 @@ func runC08(c *Ctx, r *Report) {
 	r.Check(okSort, "R-C08.3", r.Key("R-C08.3", tj, "heads-sorted", ""), tj.Body.Pos(), "the manifest's head list is built from the sorted slice", "ToJSONLog does not build the head list from a slice it sorted first: the manifest identifier depends on the order in which merges arrived")
 
 	// ---- R-C08.4
-	norm := p.Func("entry", "", "Normalize")
+	norm := p.FuncI("entry", "", "Normalize")
 	incF := p.Field("entry", "normalizeEntryOpts", "includeHash")
 	// hash copied only under includeHash
 	nf := &Flow{P: p, Fn: norm, Entry: Facts{}}
@@ -414,7 +414,7 @@ func runC08(c *Ctx, r *Report) {
 	}
 	r.Check(!setsInclude, "R-C08.4", r.Key("R-C08.4", norm, "includeHash-unset", ""), norm.Body.Pos(), "no call site enables includeHash", "some call site sets includeHash: the hash becomes part of the encoded view")
 	// ToMultihashWithIO: every success return passes through Normalize and io.Write
-	tm := p.Func("entry", "", "ToMultihashWithIO")
+	tm := p.FuncI("entry", "", "ToMultihashWithIO")
 	tf := &Flow{P: p, Fn: tm, Entry: Facts{}}
 	tf.Node = func(n ast.Node, f Facts) {
 		walkNoLit(n, func(nd ast.Node) bool {
@@ -456,7 +456,7 @@ func runC08(c *Ctx, r *Report) {
 	})
 	// decoders: SetHash(requested id) after ToPlain
 	for _, d := range []struct{ pkg, recv string }{{"io/cbor", "IOCbor"}, {"io/pb", "pb"}} {
-		fn := p.Func(d.pkg, d.recv, "DecodeRawEntry")
+		fn := p.FuncI(d.pkg, d.recv, "DecodeRawEntry")
 		hashParam := paramObj(fn, 1)
 		df := &Flow{P: p, Fn: fn, Entry: Facts{}}
 		df.Node = func(n ast.Node, f Facts) {
